@@ -24,14 +24,28 @@ let handle toks = match toks with
     let m = (match mode with "rw" -> ReadWrite | "ro" -> ReadOnly | _ -> Overwrite) in
     let ver = [z_of_string x; z_of_string y; z_of_string z] in
     let ver = (match defect with "ver2" -> [z_of_string x; z_of_string y] | "ver4" -> ver @ [Z0] | _ -> ver) in
-    let h = { h_format = (match defect with "noformat" -> None | "badformat" -> Some (cstr "xin") | _ -> Some fILE_FORMAT);
+    let is_fmt = OStr.length defect > 4 && OStr.sub defect 0 4 = "fmt=" in
+    let fmt_val = if is_fmt then dec_str (OStr.sub defect 4 (OStr.length defect - 4)) else "" in
+    let h = { h_format = (match defect with "noformat" -> None | "badformat" -> Some (cstr "xin")
+                                           | _ -> if is_fmt then Some (cstr fmt_val) else Some fILE_FORMAT);
               h_version = (match defect with "noversion" -> None | _ -> Some ver);
               h_id = (match defect with "noid" -> None | _ -> Some (cstr "id")) } in
     let c = (match defect with
         | "nonh5" -> NotHDF5
         | "plainh5" -> H5file ({ h_format = None; h_version = None; h_id = None }, false, Z0)
         | _ -> H5file (h, true, Zpos XH)) in
-    let spec = if defect <> "none" then "ANY"
+    (* the property: a file that lacks the format / version / id header is refused (Force and Overwrite aside) *)
+    let vx = z_of_string x and vy = z_of_string y and vz = z_of_string z in
+    let at_least_120 = not (lexltb { formatVersion_vx = vx; formatVersion_vy = vy; formatVersion_vz = vz }
+                              { formatVersion_vx = z_of_int 1; formatVersion_vy = z_of_int 2; formatVersion_vz = Z0 }) in
+    let header_broken = (match defect with
+        | "noformat" | "badformat" | "noversion" | "plainh5" | "nonh5" -> true
+        | "noid" -> at_least_120
+        | _ -> is_fmt && fmt_val <> ostr fILE_FORMAT) in
+    let spec = if mode = "ow" then "OK blocks=0"
+      else if defect = "nonh5" then "ERR"
+      else if header_broken && force <> "1" then "ERR"
+      else if defect <> "none" && not (is_fmt && fmt_val = ostr fILE_FORMAT) then "ANY"
       else if gate_specb (z_of_string x) (z_of_string y) (z_of_string z) m (force = "1")
       then (if mode = "ow" then "OK blocks=0" else "OK blocks=1") else "ERR" in
     show_res (fun n -> "blocks=" ^ string_of_z n) (open_file c m (force = "1")) ^ " ## " ^ spec
